@@ -107,9 +107,9 @@ class VGroup(V):
 
 
 class VWorker(V):
-    def __init__(self, group: VGroup, loops: tuple, node: ast.AST, forked_from: typing.Optional['VWorker'] = None):
+    def __init__(self, group: VGroup, loops: tuple, node: ast.AST, forked_from: typing.Optional['VWorker'] = None, guards: tuple = ()):
         super().__init__()
-        self.group, self.loops, self.node, self.forked_from = group, loops, node, forked_from
+        self.group, self.loops, self.node, self.forked_from, self.guards = group, loops, node, forked_from, guards
         group.members.append(self)
 
     def __repr__(self):
@@ -456,7 +456,7 @@ class Interpreter:
                 args = [self.eval(a, env) for a in node.args]
                 b = args[0] if args else VUnknown()
                 g = VGroup(core.src(node.args[0]) if node.args else '?', args[1] if len(args) > 1 else None, args[2] if len(args) > 2 else None, node)
-                w = VWorker(g, self.ctx(), node)
+                w = VWorker(g, self.ctx(), node, guards=tuple(self.guards))
                 self.emit('worker', node, worker=w, builder=core.src(node.args[0]) if node.args else '')
                 return w
             if name.endswith('Worker.fgen'):
@@ -497,7 +497,7 @@ class Interpreter:
                 return t
             if isinstance(base, VWorker):
                 if m == 'fork':
-                    w = VWorker(base.group, self.ctx(), node, forked_from=base)
+                    w = VWorker(base.group, self.ctx(), node, forked_from=base, guards=tuple(self.guards))
                     return w
                 if m == 'train':
                     self.emit('train', node, worker=base, features=args[0] if args else kwargs.get('train'), labels=args[1] if len(args) > 1 else kwargs.get('label'))
